@@ -141,6 +141,30 @@ let handle case obs =
           ((if corr then obs else render ()), failed)
         | _ -> (render (), ["malformed_observation"]))
      | _ -> failwith "bad gather case")
+  | "gmapped" :: _ ->
+    (match groups case with
+     | ["gmapped"; sk; nt; pmin; pmax; lo; iff; ipf; _rules] :: ifs ->
+       let ifs = List.map iface_of ifs in
+       let c = mk_cfg "2" nt pmin pmax lo "0" "x" iff ipf "0" "-" in
+       let e = { Model.e_unavail = (fun _ -> false); e_busy = (fun _ _ -> false);
+                 e_server = (fun _ -> None); e_reply = (fun _ -> None); e_relayed = None; e_tcpmux_port = Model.Z0 } in
+       (* the mapper's answer for the wildcard address of each family is part of the observation (its semantics is
+          C19's model); "!" = not ok *)
+       let res_of t = if t = "!" then None else Some (List.map addr_of_hex (lst t)) in
+       (match groups obs with
+        | [[ret; st; nils]; "P" :: p; "L" :: l; "S" :: s; ["R"; r4; r6]] when ret <> "TIMEOUT" ->
+          let res is6 = if is6 then res_of r6 else res_of r4 in
+          let descs = Model.mapped_model (bool_of_tok sk) c e res in
+          let render () = ["0"; "3"; "1"; ";"; "D"] @ List.sort compare (List.map desc_tok descs) in
+          let p = List.map cand_of p and l = List.map cand_of l and s = List.map sock_of s in
+          let ret = z_of_string ret and st = z_of_string st and nils = z_of_string nils in
+          let corr = Model.corresponds descs p s && Model.corresponds descs l s
+                     && Model.all_ok (Model.c18_finish_checks ret st nils p l) in
+          let failed = names (Model.failed (Model.c18_mapped_checks c ifs p s))
+                       @ names (Model.failed (Model.c18_finish_checks ret st nils p l)) in
+          ((if corr then obs else render ()), failed)
+        | _ -> (["malformed"], ["malformed_observation"]))
+     | _ -> failwith "bad gmapped case")
   | "cycle" :: _ ->
     (match groups case with
      | ["cycle"; n] :: ops ->
